@@ -143,6 +143,12 @@ def extract(config='default', repo=None, target_dir=None, out=None):
     finally:
         fcntl.flock(lock, fcntl.LOCK_UN)
         lock.close()
+        if target_dir is not None:
+            # a scratch target directory is used by one run only: its lock file would otherwise stay behind for ever
+            try:
+                os.remove(os.path.join(CACHE, lockname))
+            except OSError:
+                pass
 
 
 if __name__ == '__main__':
